@@ -326,9 +326,9 @@ func init() {
 		Flavour:     "prod+overlay", QuickBudgetS: 120, ThoroughBudgetS: 900,
 		Spaces: func(tier string) []*core.Space {
 			if tier == "thorough" {
-				return []*core.Space{c19Space(3), c19LargeSpace()}
+				return []*core.Space{c19Space(3), c19LargeSpace(), c19TwinSpace()}
 			}
-			return []*core.Space{c19Space(2), c19LargeSpace()}
+			return []*core.Space{c19Space(2), c19LargeSpace(), c19TwinSpace()}
 		},
 	})
 }
@@ -387,6 +387,63 @@ func c19LargeSpace() *core.Space {
 				}
 			}
 			r.Outcome("every-exact-name-found")
+		},
+	}
+}
+
+// the same declarations at the same positions in two files: a query by name must answer for both files alike
+func c19TwinSpace() *core.Space {
+	name := "same-declarations-at-the-same-place-in-two-files"
+	return &core.Space{
+		Name: name, N: int64(len(c19Stmts)), Chunk: 10, RecycleEvery: 10,
+		Describe: func(i int64) interface{} {
+			return map[string]interface{}{"m.lua": c19Stmts[i] + "\n", "p.lua": c19Stmts[i] + "\n"}
+		},
+		Run: func(i int64, r *core.Result) {
+			text := c19Stmts[i] + "\n"
+			r.Evaluated++
+			p := luaref.Parse(text)
+			if p.Err != nil {
+				return
+			}
+			r.Nontrivial++
+			b := luaref.Bind(p.Chunk)
+			root := drv.NewWorkspace(map[string]string{"m.lua": text, "p.lua": text})
+			defer drv.RemoveWorkspace(root)
+			s, err := drv.Start(root, drv.Options{})
+			if err != nil {
+				r.Fail(name, i, "server-start-failed", text, map[string]interface{}{"error": err.Error()})
+				return
+			}
+			defer s.Close()
+			s.Open("m.lua", text)
+			s.Open("p.lua", text)
+			for _, d := range c19Decls(text, p.Chunk, b) {
+				if d.query == "" {
+					continue
+				}
+				ws, err := s.WsSymbols(d.query)
+				r.Transitions++
+				if err != nil {
+					continue
+				}
+				r.States++
+				dr := rng(text, d.sp)
+				hits := map[string]int{}
+				for _, w := range ws {
+					if rangeContains(w.Location.Range, dr) {
+						hits[s.Rel(w.Location.URI)]++
+					}
+				}
+				if hits["m.lua"] != hits["p.lua"] {
+					sig := "twin-declarations-answered-for-one-file-only:" + d.kind
+					coreS := fmt.Sprintf("%s | %s | in %q", sig, lineAt(text, dr), text)
+					r.Outcome(sig)
+					r.Fail(name, i, sig, coreS, map[string]interface{}{"failure_core": coreS, "text_of_both_files": text, "query": d.query, "entries_at_the_declaration": hits})
+				} else {
+					r.Outcome("twins-answered-alike")
+				}
+			}
 		},
 	}
 }
